@@ -565,3 +565,22 @@ Proof.
   intros [Hx _] Hq. injection Hq as <-. split; [left; reflexivity|].
   intros y [<-|Hy]; [lia|apply Hx; exact Hy].
 Qed.
+
+(* ---------- the generic theorems at the two instances ---------- *)
+Definition cpq_linearizable_lemma capacity items :=
+  locked_object_linearizable_lemma pq_state pq_op pq_ret pq_seq_step cpq_excl pq_mutating
+    cpq_side_condition pq_readonly
+    {| pq_cap := pq_cap (pq_new capacity); pq_items := fold_left (fun l v => insert_sorted v l) items [] |}.
+
+Definition clist_linearizable_lemma (items : list Z) :=
+  locked_object_linearizable_lemma (list Z) ls_op ls_ret ls_seq_step clist_excl ls_mutating
+    clist_side_condition ls_readonly items.
+
+Definition cpq_readonly_no_change_lemma capacity items :=
+  locked_readonly_no_change_lemma pq_state pq_op pq_ret pq_seq_step cpq_excl pq_mutating
+    cpq_side_condition pq_readonly
+    {| pq_cap := pq_cap (pq_new capacity); pq_items := fold_left (fun l v => insert_sorted v l) items [] |}.
+
+Definition clist_readonly_no_change_lemma (items : list Z) :=
+  locked_readonly_no_change_lemma (list Z) ls_op ls_ret ls_seq_step clist_excl ls_mutating
+    clist_side_condition ls_readonly items.
